@@ -22,12 +22,12 @@ const (
 )
 
 type Obj struct {
-	ID    int
-	Kind  ObjKind
-	Typ   types.Type // cell: value type; region: element type; map: map type
-	Name  string
-	Fresh bool // allocated during the execution under analysis (not reachable from inputs)
-	Pool  bool // pool-owned buffer (bytebufferpool / sync.Pool)
+	ID     int
+	Kind   ObjKind
+	Typ    types.Type // cell: value type; region: element type; map: map type
+	Name   string
+	Fresh  bool // allocated during the execution under analysis (not reachable from inputs)
+	Pool   bool // pool-owned buffer (bytebufferpool / sync.Pool)
 	Opaque bool // identity unknown (result of a havoc or of a contracted call): may alias other objects
 }
 
